@@ -83,4 +83,9 @@ PROPS = {
         "level_text": "Machine-checked Lean 4 theorems: shifting a real card gives the card of the same rank and the next suit in S->H->D->C->S, four shifts restore it, three or fewer do not, blank stays blank (kernel evaluation over graphs regenerated from the crate); a container shift is the slot-wise shift; for ANY injective relabelling of the four suits (all 24) and EVERY five, six or seven distinct real cards in any order the value is unchanged (ranks and same-suit-ness are preserved, so the hands tie, so by C01/C02 the values agree); shifting is the instance sigma = next suit.",
         "level_note": "Trusts: as C01/C02; shift_suit = create(get_card_rank, next_suit) is a hand-modelled composition of regenerated graphs, compared with the crate on the 53 words, every rank-field x suit-bit combination and seeded hands of sizes 2..7.",
     },
+    "C11": {
+        "technique": "Lean 4 kernel evaluation over all 52 x 52 layout words + general proofs about an insertion-sort model (permutation, sortedness, uniqueness of the sorted permutation)",
+        "level_text": "Machine-checked Lean 4 theorems: for all 52 x 52 pairs of real cards word order is (rank, suit) lexicographic order and every card is above blank; for EVERY list of words of any length the sort output is a permutation of the input, non-increasing, idempotent, of the same length, and is the unique list with those properties (so the copying and in-place forms, and any correct sorting algorithm, agree).",
+        "level_note": "Trusts: Lean kernel; that the crate's card words are the layout words (C10); core's sort_unstable + reverse modelled as the non-increasing rearrangement and compared with the crate on all arrangements/multisets of a small alphabet and seeded arbitrary-word hands of every size.",
+    },
 }
